@@ -338,6 +338,7 @@ Inductive tshape (x : gst) (t : nat) : stack jc -> Prop :=
     (is_reg (mb (gh x)) = true -> jwr (gh x) = true) -> tshape x t [CLoadC (c_res tgt) 5; FC (JReadRes p k)]
 | sh_jready p k r j : t <> tgt -> run x t -> mb (gh x) = MBTaken j t -> woken (gh x) = false ->
     gfin (gh x) = Some r -> nb (gh x) = O -> late (gh x) t = false ->
+    (j <> tgt -> stolen_j (gh x) = true) ->
     tshape x t [FStWrite j ST_READY; FC (JReady p k r j)]
 (* fiber_tryjoin *)
 | sh_trl1 p k : t <> tgt -> run x t -> tshape x t [CLoadC c_ds 5; FC (TrL1 p k)]
@@ -613,6 +614,8 @@ Section Stable5.
   Proof. intros <-. now apply (r_late _ _ _ HR). Qed.
   Lemma st_gave_v v : u = tgt -> gave (gh x) = v -> gave (gh x') = v.
   Proof. intros E <-. eapply st_gave_eq; eauto. Qed.
+  Lemma st_sj_imp (P : Prop) : (P -> stolen_j (gh x) = true) -> P -> stolen_j (gh x') = true.
+  Proof. intros H HP. apply (r_sj _ _ _ HR). auto. Qed.
   Lemma st_released : released (gh x) = true -> released (gh x') = true.
   Proof. apply (r_rel _ _ _ HR). Qed.
   Lemma st_jwr_reg : released (gh x) = true -> (is_reg (mb (gh x)) = true -> jwr (gh x) = true) ->
@@ -633,7 +636,7 @@ Proof.
   all: try (econstructor; eauto 6 using st_run, st_idle, st_tpre, st_gfin_nn, st_gfin_some, st_mb_pending,
               st_mb_taken, st_taken_any, st_woken, st_cw, st_tfin, st_tdone, st_sleeper, st_mail,
               st_blocked_v, st_fstate_v, st_slot_v, st_na0, st_nb0, st_late_v, st_gave_v, st_released,
-              st_jwr_reg, st_val, st_woken_false, st_ds_nwfj, st_ds_nz, st_nt_taken, st_nt_full,
+              st_jwr_reg, st_val, st_woken_false, st_sj_imp, st_ds_nwfj, st_ds_nz, st_nt_taken, st_nt_full,
               st_nt_pending; fail).
   all: try (subst u; econstructor; eauto 6 using st_run, st_gfin_some, st_mb_taken, st_tfin, st_gave_v,
               st_woken_false; fail).
